@@ -325,7 +325,24 @@ func (u *Universe) structSortOf(t types.Type) *structSort {
 		s.sorts = append(s.sorts, u.sortOf(f.Type()))
 	}
 	u.structOrder = append(u.structOrder, s)
+	globalStructTypes[s.name] = t
 	return s
+}
+
+// globalStructTypes remembers, for the whole run, which Go type a struct sort
+// name stands for, so that a heap key first declared while encoding another
+// unit can be re-declared in a later unit's universe.
+var globalStructTypes = map[string]types.Type{}
+
+var structSortRe = regexp.MustCompile(`S_[A-Za-z0-9_]+`)
+
+// ensureSorts declares every struct sort mentioned in an SMT sort expression.
+func (u *Universe) ensureSorts(sortExpr string) {
+	for _, name := range structSortRe.FindAllString(sortExpr, -1) {
+		if t, ok := globalStructTypes[name]; ok {
+			u.structSortOf(t)
+		}
+	}
 }
 
 // tagOf returns the interface dynamic-type tag (>0) for a concrete type.
